@@ -202,7 +202,9 @@ protected:
       }
     }
 
-    strCurr[lenCurr - 1] = 0;
+    // The closing symbol is not part of the string
+    lenCurr--;
+    strCurr[lenCurr] = 0;
   }
 };
 
